@@ -1051,7 +1051,7 @@ def run(chk):
     chk.notes["sites"] = len(sites)
     chk.notes["sites_regenerated"] = changed
     chk.notes["site_tags"] = dict(Counter(s["tag"] for s in sites))
-    chk.exhaustive = True  # the inventory theorem is a decide over the complete scanned table
+    chk.notes["exhaustive_part"] = "the site inventory theorem is a decide over the complete scanned table; seeds and histories are sampled"
     chk.lean("FfcxProofs.C12", THEOREMS, extra_files=[
         VERIF / "lean/FfcxProofs/Lemmas/Sites.lean", VERIF / "lean/FfcxModel/Determinism/Sites.lean",
         VERIF / "lean/FfcxModel/Generated/Sites.lean"])
